@@ -58,6 +58,7 @@ type c37Fork struct {
 	cfg              *params.ChainConfig
 	cancun, osaka    bool
 	amsterdam, shang bool
+	preLondon        bool // proof-of-work rule set without base fee: legacy gas price only
 }
 
 func c37U64(v uint64) *uint64 { return &v }
@@ -84,7 +85,23 @@ func c37Forks() []c37Fork {
 		}
 		return c37Fork{name: name, cfg: &cfg, shang: level >= 1, cancun: level >= 2, osaka: level >= 4, amsterdam: level >= 5}
 	}
-	return []c37Fork{mk("paris", 0), mk("shanghai", 1), mk("cancun", 2), mk("prague", 3), mk("osaka", 4), mk("amsterdam", 5)}
+	// proof-of-work rule sets before London: AllEthashProtocolChanges with the later forks switched off again
+	pow := func(name string, level int) c37Fork {
+		cfg := *params.AllEthashProtocolChanges
+		cfg.LondonBlock, cfg.ArrowGlacierBlock, cfg.GrayGlacierBlock = nil, nil, nil
+		if level < 3 { // before Constantinople..Berlin
+			cfg.ConstantinopleBlock, cfg.PetersburgBlock, cfg.IstanbulBlock, cfg.MuirGlacierBlock, cfg.BerlinBlock = nil, nil, nil, nil, nil
+		}
+		if level < 2 { // before Tangerine Whistle..Byzantium
+			cfg.EIP150Block, cfg.EIP155Block, cfg.EIP158Block, cfg.ByzantiumBlock = nil, nil, nil, nil
+		}
+		if level < 1 {
+			cfg.HomesteadBlock = nil
+		}
+		return c37Fork{name: name, cfg: &cfg, preLondon: true}
+	}
+	return []c37Fork{mk("paris", 0), mk("shanghai", 1), mk("cancun", 2), mk("prague", 3), mk("osaka", 4), mk("amsterdam", 5),
+		pow("frontier", 0), pow("homestead", 1), pow("byzantium", 2), pow("berlin", 3)}
 }
 
 func c37Header(f c37Fork, gasLimit uint64) *types.Header {
@@ -100,6 +117,9 @@ func c37Header(f c37Fork, gasLimit uint64) *types.Header {
 	if f.cancun {
 		h.ExcessBlobGas = c37U64(0) // blob base fee 1
 		h.BlobGasUsed = c37U64(0)
+	}
+	if f.preLondon {
+		h.BaseFee, h.Difficulty, h.MixDigest = nil, big.NewInt(131072), common.Hash{}
 	}
 	return h
 }
@@ -336,6 +356,9 @@ type c37Req struct {
 	Blobs    int      `json:"blobs"`
 	HdrLimit uint64   `json:"header_gas_limit"`
 	Ratio    float64  `json:"error_ratio"`
+	// Legacy: "" = 1559-style fee fields; "shared" = gas price with fee cap and tip cap pointing to the SAME value (as
+	// internal/ethapi ToMessage builds legacy calls); "copies" = gas price with independent equal fee cap / tip cap
+	Legacy string `json:"legacy_price,omitempty"`
 }
 
 const c37BlobFeeCap = 2
@@ -350,6 +373,13 @@ func c37Message(q c37Req) *core.Message {
 		if gasPrice.Cmp(feeCap) > 0 {
 			gasPrice = feeCap.Clone()
 		}
+	}
+	switch q.Legacy {
+	case "shared":
+		gasPrice = uint256.NewInt(q.FeeCap)
+		feeCap, tip = gasPrice, gasPrice
+	case "copies":
+		gasPrice, feeCap, tip = uint256.NewInt(q.FeeCap), uint256.NewInt(q.FeeCap), uint256.NewInt(q.FeeCap)
 	}
 	to := c37B
 	m := &core.Message{
@@ -405,7 +435,7 @@ func c37RefCap(f c37Fork, q c37Req, balance *big.Int) (cap uint64, ok bool) {
 // eth_estimateGas executes a message (NoBaseFee, base fee zeroed for zero-price calls). Written
 // independently of the estimator's run/execute helpers.
 func c37Apply(f c37Fork, chain *c37Chain, hdr *types.Header, st *state.StateDB, m *core.Message, gas uint64) (ok bool, res *core.ExecutionResult, err error) {
-	msg := *m
+	msg := *c37CloneMsg(m) // never let the oracle's own executions touch the caller's message
 	msg.GasLimit = gas
 	bctx := core.NewEVMBlockContext(hdr, chain, nil)
 	if msg.GasPrice.Sign() == 0 {
@@ -421,6 +451,59 @@ func c37Apply(f c37Fork, chain *c37Chain, hdr *types.Header, st *state.StateDB, 
 		return false, nil, err
 	}
 	return !res.Failed(), res, nil
+}
+
+// c37CloneMsg deep-copies a message; fields that share one *uint256.Int in the original share one in the copy too.
+func c37CloneMsg(m *core.Message) *core.Message {
+	c := *m
+	seen := map[*uint256.Int]*uint256.Int{}
+	cl := func(p *uint256.Int) *uint256.Int {
+		if p == nil {
+			return nil
+		}
+		if q, ok := seen[p]; ok {
+			return q
+		}
+		q := p.Clone()
+		seen[p] = q
+		return q
+	}
+	c.Value, c.GasPrice, c.GasFeeCap, c.GasTipCap, c.BlobGasFeeCap = cl(m.Value), cl(m.GasPrice), cl(m.GasFeeCap), cl(m.GasTipCap), cl(m.BlobGasFeeCap)
+	if m.To != nil {
+		to := *m.To
+		c.To = &to
+	}
+	c.Data = append([]byte(nil), m.Data...)
+	c.BlobHashes = append([]common.Hash(nil), m.BlobHashes...)
+	c.AccessList = append(types.AccessList(nil), m.AccessList...)
+	c.SetCodeAuthorizations = append([]types.SetCodeAuthorization(nil), m.SetCodeAuthorizations...)
+	return &c
+}
+
+// c37MsgPrint renders every field of a message by value (immutability oracle).
+func c37MsgPrint(m *core.Message) string {
+	u := func(p *uint256.Int) string {
+		if p == nil {
+			return "nil"
+		}
+		return p.Dec()
+	}
+	to := "nil"
+	if m.To != nil {
+		to = m.To.Hex()
+	}
+	return fmt.Sprintf("from=%s to=%s nonce=%d value=%s gasLimit=%d gasPrice=%s gasFeeCap=%s gasTipCap=%s data=%x accessList=%v blobGasFeeCap=%s blobHashes=%x auths=%d skipNonce=%v skipTx=%v",
+		m.From.Hex(), to, m.Nonce, u(m.Value), m.GasLimit, u(m.GasPrice), u(m.GasFeeCap), u(m.GasTipCap), m.Data, m.AccessList, u(m.BlobGasFeeCap), m.BlobHashes,
+		len(m.SetCodeAuthorizations), m.SkipNonceChecks, m.SkipTransactionChecks)
+}
+
+// c37StatePrint renders the balances / nonces of the accounts of the world as read from st.
+func c37StatePrint(st *state.StateDB) string {
+	out := ""
+	for _, a := range []common.Address{c37A, c37B, c37C1, c37C2, c37C3, c37E, c37F, c37CB} {
+		out += fmt.Sprintf("%x:%s/%d/%d/%x ", a[:2], st.GetBalance(a).Dec(), st.GetNonce(a), st.GetCodeSize(a), st.GetState(a, common.Hash{}).Bytes()[31:])
+	}
+	return out
 }
 
 type c37World struct {
@@ -475,9 +558,16 @@ func c37Check(w c37World, q c37Req, exactGas uint64, strict bool) (est uint64, o
 	if affordable {
 		okAtCap, capRes, capErr = c37Apply(w.f, w.chain, hdr, st, msg, capRef)
 	}
+	msgBefore, stateBefore := c37MsgPrint(msg), c37StatePrint(st)
 	got, revert, eerr := Estimate(context.Background(), msg, opts, q.GasCap)
 	if msg.GasLimit != q.GasArg {
 		return 0, "", fmt.Errorf("Estimate left call.GasLimit=%d (was %d)", msg.GasLimit, q.GasArg)
+	}
+	if after := c37MsgPrint(msg); after != msgBefore {
+		return 0, "", fmt.Errorf("Estimate (or the executions it runs) modified the caller's message:\n before %s\n after  %s", msgBefore, after)
+	}
+	if after := c37StatePrint(st); after != stateBefore {
+		return 0, "", fmt.Errorf("Estimate modified the caller's state:\n before %s\n after  %s", stateBefore, after)
 	}
 	if r := st.IntermediateRoot(w.f.cfg.Rules(hdr.Number, true, hdr.Time)); r != rootBefore {
 		return 0, "", fmt.Errorf("Estimate modified the caller's state")
@@ -563,6 +653,9 @@ func TestVerif_C37(t *testing.T) {
 		r.Rule("[main] plain transfer + a program needing 20M gas (above the 2^24 transaction cap) + every program of <=2 units (thorough: <=3) over a 19-unit alphabet (SSTORE new/clear, SLOAD, MSTORE 8k, LOG1, KECCAK, CALL-and-require to a storing / heavy / reverting callee, value CALL to an existing / absent account, CREATE, " +
 			"GAS floor; always failing: REVERT with data, INVALID, memory OOG, required reverting call; non-monotone: ignored heavy call, ignored fixed-gas call, GAS ceiling) x forks {paris, shanghai, cancun, prague, osaka, amsterdam} x 9 request shapes " +
 			"(no fees; error ratio 0.015; value+fee cap 1e9+gas cap 1e6; balance exactly enough / one wei short at fee cap 7; gas cap 30000; explicit gas 100000; value with zero balance; fee cap below base fee); " +
+			"[pre-London] the same programs on proof-of-work rule sets frontier, homestead, byzantium, berlin (no base fee; 2-unit programs with 5 request shapes, <=1-unit programs with all shapes) and a legacy grid value {0,50} x balance {exact, exact-1, ample} x gas price {3,1e9} x gas cap {0,1e6} x error ratio for 9 programs; " +
+			"[legacy] on every rule set the fee-bearing shapes of <=1-unit programs are repeated with a legacy gas price whose fee cap / tip cap are the SAME *uint256.Int as the gas price (as internal/ethapi ToMessage builds them) and with independent copies; " +
+			"[immutability] every field of the message (all integers by value, data, access list, blob hashes) and the balances / nonces / code sizes / slot 0 of all world accounts plus the state root are recorded before Estimate and must be identical afterwards; the oracle's own executions run on deep copies; " +
 			"[grid] 9 representative programs x forks x value {0,50} x balance {zero, exact, exact-1, ample} x fee cap {0,1,7,1e9} x gas cap {0,30000,1e6} x blobs {0,1 (Cancun+)} x error ratio {0,0.015}; " +
 			"every request: allowance cap computed from the statement, execution at the cap by an independent ApplyMessage driver; succeeds => Estimate returns no error, estimate <= every cap and funds, execution with the estimate succeeds, " +
 			"estimate-1 fails (ratio 0, monotone program), over-estimation < ratio otherwise; fails => Estimate returns an error with the revert data of the execution at the cap; distinct = (fork, program, request)")
@@ -600,6 +693,21 @@ func TestVerif_C37(t *testing.T) {
 				}
 			}
 		}
+		var legacyGrid []c37Req
+		for _, v := range []uint64{0, 50} {
+			for _, b := range []string{"exact", "exact-1", "ample"} {
+				for _, price := range []uint64{3, 1_000_000_000} {
+					for _, gc := range []uint64{0, 1_000_000} {
+						for _, lg := range []string{"shared", "copies"} {
+							for _, ra := range []float64{0, 0.015} {
+								legacyGrid = append(legacyGrid, c37Req{Value: v, Balance: b, FeeCap: price, GasCap: gc, Legacy: lg, Ratio: ra})
+							}
+						}
+					}
+				}
+			}
+		}
+		r.Bound("legacy_grid_shapes", len(legacyGrid))
 		r.Bound("main_shapes", len(mainShapes))
 		r.Bound("grid_shapes", len(gridShapes))
 		type job struct{ fi, pi int }
@@ -655,18 +763,46 @@ func TestVerif_C37(t *testing.T) {
 				if oc != "" {
 					counts[f.name+"/"+oc]++
 				}
-				r.DistinctHash(mc.Hash64(fmt.Sprintf("%s|%s|%d|%s|%d|%d|%d|%d|%v", f.name, name, q.Value, q.Balance, q.FeeCap, q.GasCap, q.GasArg, q.Blobs, q.Ratio)))
+				r.DistinctHash(mc.Hash64(fmt.Sprintf("%s|%s|%d|%s|%d|%d|%d|%d|%v|%s", f.name, name, q.Value, q.Balance, q.FeeCap, q.GasCap, q.GasArg, q.Blobs, q.Ratio, q.Legacy)))
 			}
 			// reference points first (they are requests of the space themselves)
 			runOne(c37Req{Balance: "ample"})
 			runOne(c37Req{Value: 1, Balance: "ample"})
-			for _, q := range mainShapes[1:] {
-				if r.Expired() {
-					return
+			small := len(p.names) <= 1
+			if !f.preLondon || small {
+				for _, q := range mainShapes[1:] {
+					if r.Expired() {
+						return
+					}
+					runOne(q)
 				}
-				runOne(q)
 			}
-			if len(p.names) <= 1 && gridProgs[name] {
+			// legacy gas price requests, fee fields sharing one value (as ToMessage builds them) and as independent copies
+			if small {
+				for _, q := range mainShapes {
+					if q.FeeCap == 0 || r.Expired() {
+						continue
+					}
+					for _, lg := range []string{"shared", "copies"} {
+						q.Legacy = lg
+						runOne(q)
+					}
+				}
+			} else if f.preLondon {
+				runOne(c37Req{Value: 1, Balance: "ample", FeeCap: 1_000_000_000, GasCap: 1_000_000, Legacy: "shared"})
+				runOne(c37Req{Balance: "exact", FeeCap: 7, Legacy: "copies"})
+				runOne(c37Req{Balance: "ample", FeeCap: 3, Ratio: 0.015, Legacy: "shared"})
+			}
+			if f.preLondon && small && gridProgs[name] {
+				runOne(c37Req{Value: 50, Balance: "ample"})
+				for _, q := range legacyGrid {
+					if r.Expired() {
+						return
+					}
+					runOne(q)
+				}
+			}
+			if !f.preLondon && len(p.names) <= 1 && gridProgs[name] {
 				runOne(c37Req{Value: 50, Balance: "ample"})
 				for _, q := range gridShapes {
 					if r.Expired() {
